@@ -37,6 +37,9 @@ def errName : Err → String
   | .TypeError => "TypeError"
   | .InvalidConstraintsError => "InvalidConstraintsError"
   | .KeyError => "KeyError"
+  | .AttributeError => "AttributeError"
+  | .IndexError => "IndexError"
+  | .OutOfFuel => "OutOfFuel"
 
 def boolStr (b : Bool) : String := if b then "true" else "false"
 
